@@ -26,7 +26,7 @@ from pyvc.registry import ComponentResult, Finding  # noqa: E402
 
 ASSUMPTIONS_ALWAYS = [
     "floats are mathematical reals: no rounding, overflow, inf or NaN; float literals denote the number they were written as (DESIGN 2.2)",
-    "CPython semantics of the constructs outside the interpreted subset as documented (DESIGN 2.2); generators are evaluated eagerly",
+    "CPython semantics of the constructs outside the interpreted subset as documented (DESIGN 2.2); generator functions (yield) are run to completion when called - their items are collected eagerly - while generator EXPRESSIONS are lazy as in CPython",
     "z3 5.1 / cvc5 / z3 4.8 are sound when they answer unsat",
 ]
 
